@@ -259,7 +259,12 @@ func layoutFor(key string) (gen.Policy, string) {
 	h.Write([]byte(key))
 	x := h.Sum64()
 	switch (x >> 3) % 8 {
-	case 0, 1, 2, 3:
+	case 0, 1, 2:
+		return gen.Canon{}, "canonical"
+	case 3:
+		if (x>>6)%2 == 0 {
+			return gen.Vast{}, "vast (33 .. 1025 characters of white space between any two tokens)"
+		}
 		return gen.Canon{}, "canonical"
 	case 4:
 		return gen.Tight{}, "tight (no blank that can be left out)"
@@ -310,4 +315,81 @@ func str(s string) *gen.EStr               { return &gen.EStr{S: s} }
 func attr(x gen.Expr, k string) *gen.EAttr { return &gen.EAttr{X: x, Key: &gen.EStr{S: k}, Dot: true} }
 func tpl(name string, body ...gen.Node) *gen.Template {
 	return &gen.Template{Name: name, Body: body}
+}
+
+// renameTemplates gives the templates of a program other names: every template name and every reference that is
+// a plain string literal (extends, include, embed, use, import, from; also the literals of a list of names) goes
+// through f. A template's name is an opaque key for the loader: what a program renders does not depend on how
+// its templates are called, be it "./x", "a/../x", " x " or "x\n". (Callbacks that report a template's name report
+// the new one to the model and to the library alike.)
+func renameTemplates(prog *Program, f func(string) string) {
+	ts := map[string]*gen.Template{}
+	for n, t := range prog.Templates {
+		t.Name = f(n)
+		ts[t.Name] = t
+		renameRefs(t.Body, f)
+	}
+	prog.Templates = ts
+	prog.Main = f(prog.Main)
+}
+
+func renameRef(e gen.Expr, f func(string) string) {
+	switch x := e.(type) {
+	case *gen.EStr:
+		x.S = f(x.S)
+	case *gen.EArr:
+		for _, el := range x.Els {
+			renameRef(el, f)
+		}
+	case *gen.EGroup:
+		renameRef(x.X, f)
+	case *gen.EBin:
+		// a name put together from two literals
+		l, lok := x.L.(*gen.EStr)
+		r, rok := x.R.(*gen.EStr)
+		if x.Op == "~" && lok && rok {
+			l.S, r.S = f(l.S+r.S), ""
+		}
+	case *gen.ETern:
+		renameRef(x.A, f)
+		renameRef(x.B, f)
+	}
+}
+
+func renameRefs(nodes []gen.Node, f func(string) string) {
+	for _, n := range nodes {
+		switch x := n.(type) {
+		case *gen.NIf:
+			for _, b := range x.Bodies {
+				renameRefs(b, f)
+			}
+			renameRefs(x.Else, f)
+		case *gen.NFor:
+			renameRefs(x.Body, f)
+			renameRefs(x.Else, f)
+		case *gen.NSetCap:
+			renameRefs(x.Body, f)
+		case *gen.NFilter:
+			renameRefs(x.Body, f)
+		case *gen.NBlock:
+			renameRefs(x.Body, f)
+		case *gen.NMacro:
+			renameRefs(x.Body, f)
+		case *gen.NImport:
+			renameRef(x.Tpl, f)
+		case *gen.NFrom:
+			renameRef(x.Tpl, f)
+		case *gen.NInclude:
+			renameRef(x.Tpl, f)
+		case *gen.NExtends:
+			renameRef(x.Tpl, f)
+		case *gen.NUse:
+			renameRef(x.Tpl, f)
+		case *gen.NEmbed:
+			renameRef(x.Tpl, f)
+			for _, b := range x.Blocks {
+				renameRefs(b.Body, f)
+			}
+		}
+	}
 }
